@@ -605,6 +605,13 @@ fn f3_scheme_false_positive(f: &NetworkFilter, url: &str) -> bool {
         && (url.starts_with("ws://") || url.starts_with("wss://"))
 }
 
+/// Known-finding class: the rule's hostname starts with a dot (`||.com`): the crate's hostname
+/// anchoring accepts the dot itself as the label boundary (x.com), the exported prefix
+/// `([^/]+\.)?` followed by `\.com` needs two dots.
+fn leading_dot_hostname_class(f: &NetworkFilter) -> bool {
+    f.hostname.as_ref().map_or(false, |h| h.starts_with('.'))
+}
+
 fn userinfo_url(u: &str) -> bool {
     u.split("://").nth(1).map_or(false, |r| r.split('/').next().unwrap_or("").contains('@'))
 }
@@ -685,6 +692,7 @@ fn main() {
         vec!["ads$domain=\u{200d}.com".into()],
         vec!["|ws://$~websocket".into()],
         vec!["*^".into()],
+        vec!["||.com".into(), "*$third-party".into()],
         vec!["@@||x.com^$generichide".into(), "##.ad".into(), "example.com##.ad".into(), "example.com#@#.ad".into(), "@@||good.com^".into(), "||ads.net^".into()],
         vec!["||example.com^$document".into(), "ads$important".into(), "@@ads$image".into(), "/ads[0-9]/".into()],
     ];
@@ -751,6 +759,8 @@ fn main() {
                     if let Some(u) = fail {
                         let class = if userinfo_url(&u) {
                             Some("C20_userinfo_url")
+                        } else if leading_dot_hostname_class(f) {
+                            Some("C20_leading_dot_hostname")
                         } else if ws_vs_scheme_only_class(f, &u) {
                             Some("C20_patternless_rule_misses_websocket_urls")
                         } else {
@@ -813,6 +823,26 @@ fn main() {
             match run_list(&lines, false) {
                 Ok(Err(())) => {}
                 other => sm.failure(None, &format!("non-debug FilterSet: expected Err(()), got {}", match other { Err(p) => format!("panic {}", p), _ => "Ok".into() }), json!({"lines": lines, "debug": false})),
+            }
+        }
+    }
+    // fixed inclusion probes: the inputs of the three inclusion findings, so that every run sees them
+    for (line, url) in [("||.com", "http://x.com/"), ("*$third-party", "wss://x.com/"), ("||example.com^", "https://user:pw@example.com/x"), ("||a", "s://u@a")] {
+        let p = parse_line(line);
+        if let (Some(f), Some(c)) = (&p.net, &p.conv) {
+            let (n, _, fail) = inclusion_failure(f, c, &[url.to_string()]);
+            sm.oracle_evaluations += n;
+            if let Some(u) = fail {
+                let class = if userinfo_url(&u) {
+                    Some("C20_userinfo_url")
+                } else if leading_dot_hostname_class(f) {
+                    Some("C20_leading_dot_hostname")
+                } else if ws_vs_scheme_only_class(f, &u) {
+                    Some("C20_patternless_rule_misses_websocket_urls")
+                } else {
+                    None
+                };
+                sm.failure(class, &format!("rule {:?} matches {:?} but the emitted url-filter does not", line, u), json!({"lines": [line], "url": u}));
             }
         }
     }
